@@ -652,6 +652,14 @@ func (e *acceptEngine) Require(rule string, fn *ssa.Function, facts []*fact) {
 				ok, wit, where = false, w, e.c.IPos(r)
 			}
 		}
+		if !ok && len(f.subject) > 0 {
+			if hard, hw := e.hardBypass(fn, f, 0); hard {
+				e.c.R.Add(report.Obligation{Rule: rule + "." + f.id, Key: rule + "." + f.id + "@" + name(fn) + ":" + f.id, Func: name(fn), Pos: e.c.Pos(fn.Pos()),
+					What: "every path to an accepting return establishes: " + f.what, Status: report.Violation, Hard: true,
+					Detail: fmt.Sprintf("accepting return at %s is reachable without it; bypass: %s; on a path to acceptance (%s) the value is never read", where, wit, hw)})
+				continue
+			}
+		}
 		if !ok {
 			// acceptance computed through function values that the path engine does not
 			// follow (callbacks of library functions, generic helpers that take the
@@ -662,16 +670,12 @@ func (e *acceptEngine) Require(rule string, fn *ssa.Function, facts []*fact) {
 					continue
 				}
 			}
-			if at := e.unfollowedCall(fn, f, nil); at != "" {
-				e.c.R.Infof(rule+"."+f.id, name(fn), f.id, e.c.Pos(fn.Pos()), "not decided for this shape: "+f.what+" — the accepting outcome depends on a function value the path engine does not follow ("+at+")")
+			if why := e.tupleVerdict(fn); why != "" {
+				e.c.R.Infof(rule+"."+f.id, name(fn), f.id, e.c.Pos(fn.Pos()), "not decided for this shape: "+f.what+" — "+why)
 				continue
 			}
-		}
-		if !ok && len(f.subject) > 0 {
-			if hard, hw := e.hardBypass(fn, f, 0); hard {
-				e.c.R.Add(report.Obligation{Rule: rule + "." + f.id, Key: rule + "." + f.id + "@" + name(fn) + ":" + f.id, Func: name(fn), Pos: e.c.Pos(fn.Pos()),
-					What: "every path to an accepting return establishes: " + f.what, Status: report.Violation, Hard: true,
-					Detail: fmt.Sprintf("accepting return at %s is reachable without it; bypass: %s; on a path to acceptance (%s) the value is never read", where, wit, hw)})
+			if at := e.unfollowedCall(fn, f, nil); at != "" {
+				e.c.R.Infof(rule+"."+f.id, name(fn), f.id, e.c.Pos(fn.Pos()), "not decided for this shape: "+f.what+" — the accepting outcome depends on a function value the path engine does not follow ("+at+")")
 				continue
 			}
 		}
@@ -1128,6 +1132,14 @@ var factImageDigest = &fact{id: "image-digest", what: "the SHA-256 of the image 
 			return hasSum && (hasTypeParam(s, "io.Reader") || ir.HasField(s, M+"/authenticode.PECOFFBinary.hashContent")) && !ir.HasField(s, M+"/authenticode.Authenticode.Digest")
 		}
 		dig := func(s map[ssa.Value]bool) bool { return ir.HasField(s, M+"/authenticode.Authenticode.Digest") }
+		if os.Getenv("VCHECK_DEBUG") == "imgdig" {
+			fmt.Fprintf(os.Stderr, "imgdig %s: a=%s img=%v dig=%v | b=%s img=%v dig=%v\n", name(fn), a.Name(), img(sa), dig(sa), b.Name(), img(sb), dig(sb))
+			for v := range sa {
+				if cc, ok := v.(*ssa.Call); ok {
+					fmt.Fprintf(os.Stderr, "    a-call %s\n", ir.CallID(cc))
+				}
+			}
+		}
 		return img(sa) && dig(sb) || img(sb) && dig(sa)
 	}}
 
@@ -1408,7 +1420,7 @@ func effectiveResult(fn *ssa.Function, r *ssa.Return, k int) ssa.Value {
 // them is not handed to code that could read it. Library callees that receive
 // the struct count as readers unless they have such a path themselves.
 func (e *acceptEngine) hardBypass(fn *ssa.Function, f *fact, depth int) (bool, string) {
-	if fn == nil || fn.Blocks == nil || depth > 4 {
+	if fn == nil || fn.Blocks == nil || depth > 4 || e.tupleVerdict(fn) != "" {
 		return false, ""
 	}
 	subj := map[string]bool{}
@@ -1508,4 +1520,40 @@ func (e *acceptEngine) hardBypass(fn *ssa.Function, f *fact, depth int) (bool, s
 		}
 	}
 	return false, ""
+}
+
+// tupleVerdict: the function (or a library function whose results it returns or
+// tests) reports its outcome through three or more results that include both a
+// boolean and an error (value, atEnd, err): which combinations mean "accepted"
+// is decided by the caller's tests on several results at once, which the path
+// engine — one verdict per function — does not evaluate.
+func (e *acceptEngine) tupleVerdict(fn *ssa.Function) string {
+	multi := func(g *ssa.Function) bool {
+		rs := g.Signature.Results()
+		if rs.Len() < 3 {
+			return false
+		}
+		hasBool, hasErr := false, false
+		for k := 0; k < rs.Len(); k++ {
+			if isBoolType(rs.At(k).Type()) {
+				hasBool = true
+			}
+			if isErrorType(rs.At(k).Type()) {
+				hasErr = true
+			}
+		}
+		return hasBool && hasErr
+	}
+	if multi(fn) {
+		return "the outcome is reported through several results (" + fn.Signature.Results().String() + ")"
+	}
+	why := ""
+	instrsOf(fn, func(i ssa.Instruction) {
+		if call, ok := i.(*ssa.Call); ok && why == "" {
+			if g := ir.Callee(call); g != nil && e.c.P.InLib(g) && multi(g) {
+				why = "the outcome of " + name(g) + " is reported through several results " + g.Signature.Results().String() + " and tested in combination at " + e.c.IPos(call)
+			}
+		}
+	})
+	return why
 }
